@@ -8,8 +8,10 @@ package main
 //     <something>.GetInt64(K) / GetFloat64(K) / GetString(K) / GetBoolean(K)
 // in crem's non-test sources names, through a string constant K, a key of the specification table
 // of the component the constant belongs to; the validator of that key demands exactly the dynamic
-// type the getter asserts; and the key is non-optional or the call sits inside the body of an
-// `if … HasEntry(K) …`.  Together with `getter_total` (Crem/Properties/C18.lean) this is what makes
+// type the getter asserts; and the key is non-optional or the call sits where HasEntry(K) is known to
+// hold: in the body of an `if` whose condition being true implies it, or in the else branch of one whose
+// condition being false implies it (polarity-aware: `!`, `&&`, `||`; see hasEntryGuards).  A fact that no
+// longer holds is a broken structural tie (predicate `structural:…`), not a failing input.  Together with `getter_total` (Crem/Properties/C18.lean) this is what makes
 // "no typed read can panic" a statement about the real call sites.
 //
 // The specification tables are the live ones (extracted from the running components, as in the
@@ -88,18 +90,42 @@ func exprText(e ast.Expr) string {
 	return "?"
 }
 
-// hasEntryGuards: the key expressions K for which the condition contains a call …HasEntry(K).
-func hasEntryGuards(cond ast.Expr) []string {
-	var out []string
-	ast.Inspect(cond, func(n ast.Node) bool {
-		if ce, ok := n.(*ast.CallExpr); ok {
-			if se, ok := ce.Fun.(*ast.SelectorExpr); ok && se.Sel.Name == "HasEntry" && len(ce.Args) == 1 {
-				out = append(out, exprText(ce.Args[0]))
-			}
+// hasEntryGuards: the key expressions K such that the condition having the given truth value IMPLIES
+// …HasEntry(K).  Polarity-aware: `A && B` true implies both, `A || B` true implies only what both imply,
+// `!A` swaps the polarity (so the else branch of `if !p.HasEntry(K)` is guarded, its body is not), and a
+// HasEntry call buried in any other expression (a comparison, an argument) guards nothing.
+func hasEntryGuards(cond ast.Expr, truth bool) []string {
+	switch x := cond.(type) {
+	case *ast.ParenExpr:
+		return hasEntryGuards(x.X, truth)
+	case *ast.UnaryExpr:
+		if x.Op == token.NOT {
+			return hasEntryGuards(x.X, !truth)
 		}
-		return true
-	})
-	return out
+	case *ast.BinaryExpr:
+		l, r := hasEntryGuards(x.X, truth), hasEntryGuards(x.Y, truth)
+		conj := (x.Op == token.LAND && truth) || (x.Op == token.LOR && !truth) // both operands are known
+		disj := (x.Op == token.LOR && truth) || (x.Op == token.LAND && !truth) // only one of them is
+		switch {
+		case conj:
+			return append(l, r...)
+		case disj:
+			var both []string
+			for _, k := range l {
+				for _, k2 := range r {
+					if k == k2 {
+						both = append(both, k)
+					}
+				}
+			}
+			return both
+		}
+	case *ast.CallExpr:
+		if se, ok := x.Fun.(*ast.SelectorExpr); ok && se.Sel.Name == "HasEntry" && len(x.Args) == 1 && truth {
+			return []string{exprText(x.Args[0])}
+		}
+	}
+	return nil
 }
 
 func suiteParamsFacts(c *Ctx) {
@@ -124,7 +150,7 @@ func suiteParamsFacts(c *Ctx) {
 				t[k] = specInfo{ty: validatorTy(validatorToken(s.Validator)), optional: s.IsOptional}
 			}
 		}); p != "" {
-			c.Fail("getter-call-site-facts", "params:facts:"+pc.name+":construction-panic", pc.name+": "+p, nil)
+			c.Fail("structural:getter-call-site-facts", "params:facts:"+pc.name+":construction-panic", pc.name+": "+p, nil)
 		}
 		tables[pc.name] = t
 	}
@@ -161,7 +187,7 @@ func suiteParamsFacts(c *Ctx) {
 	for _, path := range files {
 		f, err := parser.ParseFile(fset, path, nil, 0)
 		if err != nil {
-			c.Fail("facts", "params:facts:parse-error", path+": "+err.Error(), nil)
+			c.Fail("structural:facts", "params:facts:parse-error", path+": "+err.Error(), nil)
 			continue
 		}
 		rel, _ := filepath.Rel(repo, path)
@@ -253,31 +279,35 @@ func suiteParamsFacts(c *Ctx) {
 			op := fmt.Sprintf("fact %s %s(%s)", where, se.Sel.Name, exprText(ce.Args[0]))
 			if !resolved {
 				c.Op(op, "unresolved-key")
-				c.Fail("getter-call-site-facts", "params:facts:unresolved-key", where+": the key expression "+exprText(ce.Args[0])+" is not a string constant of a known component", []string{op})
+				c.Fail("structural:getter-call-site-facts", "params:facts:unresolved-key", where+": the key expression "+exprText(ce.Args[0])+" is not a string constant of a known component", []string{op})
 				return true
 			}
 			spec, specified := tables[comp][key]
 			guarded := false
 			keyText := exprText(ce.Args[0])
 			for _, is := range ifStack {
+				var guards []string
 				if pos := ce.Pos(); pos >= is.Body.Pos() && pos <= is.Body.End() {
-					for _, g := range hasEntryGuards(is.Cond) {
-						if g == keyText {
-							guarded = true
-						}
+					guards = hasEntryGuards(is.Cond, true) // inside the body the condition held
+				} else if is.Else != nil && pos >= is.Else.Pos() && pos <= is.Else.End() {
+					guards = hasEntryGuards(is.Cond, false) // inside the else branch it did not
+				}
+				for _, g := range guards {
+					if g == keyText {
+						guarded = true
 					}
 				}
 			}
 			switch {
 			case !specified:
 				c.Op(op, "unspecified-key")
-				c.Fail("getter-call-site-facts", "params:facts:"+comp+":"+key+":unspecified", where+": reads a key that "+comp+"'s specification table does not contain", []string{op})
+				c.Fail("structural:getter-call-site-facts", "params:facts:"+comp+":"+key+":unspecified", where+": reads a key that "+comp+"'s specification table does not contain", []string{op})
 			case spec.ty != ty:
 				c.Op(op, "type-mismatch")
-				c.Fail("getter-call-site-facts", "params:facts:"+comp+":"+key+":type-mismatch", fmt.Sprintf("%s: %s asserts %s but the key's validator demands %s", where, se.Sel.Name, ty, spec.ty), []string{op})
+				c.Fail("structural:getter-call-site-facts", "params:facts:"+comp+":"+key+":type-mismatch", fmt.Sprintf("%s: %s asserts %s but the key's validator demands %s", where, se.Sel.Name, ty, spec.ty), []string{op})
 			case spec.optional && !guarded:
 				c.Op(op, "optional-unguarded")
-				c.Fail("getter-call-site-facts", "params:facts:"+comp+":"+key+":optional-unguarded", where+": reads an optional key outside an `if HasEntry(key)` body", []string{op})
+				c.Fail("structural:getter-call-site-facts", "params:facts:"+comp+":"+key+":optional-unguarded", where+": reads an optional key outside an `if HasEntry(key)` body", []string{op})
 			default:
 				c.Op(op, "ok "+comp+" "+key+" "+ty+map[bool]string{true: " guarded", false: ""}[guarded])
 				c.Stat(fmt.Sprintf("call site ok: %s %s optional=%v guarded=%v", comp, se.Sel.Name, spec.optional, guarded))
@@ -288,6 +318,6 @@ func suiteParamsFacts(c *Ctx) {
 	}
 	c.extra["getter_call_sites"] = sites
 	if sites < 40 {
-		c.Fail("getter-call-site-facts", "params:facts:too-few-call-sites", fmt.Sprintf("only %d typed-getter call sites found under %s (the unchanged tree has 49): the extractor no longer sees the code", sites, repo), nil)
+		c.Fail("structural:getter-call-site-facts", "params:facts:too-few-call-sites", fmt.Sprintf("only %d typed-getter call sites found under %s (the unchanged tree has 49): the extractor no longer sees the code", sites, repo), nil)
 	}
 }
